@@ -47,9 +47,13 @@ def build_criterion(c):
 
 @st.composite
 def grad_case(draw):
-    sc = draw(scenario(models=("linear", "mlp_tanh", "recurrent", "recurrent", "linear_sigmoid", "mlp_tanh_out"), dtype="float64", min_steps=3, max_steps=8,
+    sc = draw(scenario(models=("linear", "mlp_tanh", "recurrent", "recurrent", "linear_sigmoid", "mlp_tanh_out", "capped"), dtype="float64", min_steps=3, max_steps=8,
                        max_paths=32, hedge_kinds=("default", "ul", "ul+listed"), extra_features=False))
     sc["n_paths"] = max(4, sc["n_paths"])
+    if sc["model"] != "recurrent" and draw(st.integers(0, 4)) == 0:
+        # a parameter-free module (fed with the previous hedge) wrapped as a feature: the loss depends on the
+        # parameters through that feature as well
+        sc["inputs"] = [f for f in sc["inputs"] if f != "prev_hedge"] + ["__band_feature"]
     if sc["ul"]["type"] == "VasicekRate":
         sc["ul"]["type"], sc["ul"]["params"] = "BrownianStock", {}
     if sc["deriv"]["type"] == "VarianceSwap" and sc["ul"]["type"] == "CIRRate":
@@ -129,8 +133,12 @@ def check_grad(case, ctx):
 
     def signature():
         """Which side of each kink (|trade|, |opening trade|, top-k membership, |residual|) the current point is on."""
+        if hasattr(objs["model"], "sig"):
+            objs["model"].sig.clear()
         unit = hedger.compute_hedge(deriv, hedge=hedge)
         sig = []
+        if hasattr(objs["model"], "sig"):
+            sig += [x for pair in objs["model"].sig for x in pair]  # sides of the clamp's two kinks
         if any_cost:
             sig += [torch.sign(unit.diff(dim=-1)), torch.sign(unit[..., 0])]
         if c["kind"] in ("es", "l1"):
@@ -201,10 +209,10 @@ def check_grad(case, ctx):
                          f"{c['kind']}: autograd directional derivative {auto!r} vs finite differences {f2!r} "
                          f"(|diff| {abs(auto - f2):.3e} > {tol:.3e})", model=case["model"], inputs=case["inputs"]):
             break
-    state_dep = "prev_hedge" in case["inputs"]
-    ctx.nontrivial(used > 0 and gnorm > 1e-8 and (not state_dep or case["model"] == "recurrent"))
+    state_dep = "prev_hedge" in case["inputs"] or "__band_feature" in case["inputs"]
+    ctx.nontrivial(used > 0 and gnorm > 1e-8 and (not state_dep or case["model"] == "recurrent" or "__band_feature" in case["inputs"]))
     ctx.cls("parameter-in-listed-price:" + str(priced), "mode:" + case.get("mode", "train"), "crit:" + c["kind"], "model:" + case["model"], "branch:" + ("stepwise" if state_dep else "vectorised"),
-            "H:%d" % case["n_hedges"], "cost:" + str(case["ul"]["cost"] > 0))
+            "H:%d" % case["n_hedges"], "cost:" + str(case["ul"]["cost"] > 0), "band-feature:" + str("__band_feature" in case["inputs"]))
     if used == 0:
         ctx.cls("all-directions-discarded")
 
